@@ -1183,7 +1183,8 @@ impl CodegenContext {
                         // so translate it back to the address we are emitting to
                         let target_offset = seg.target_offset();
                         let emit_pc = pc.saturating_sub(target_offset);
-                        if !(0..=0x10000).contains(&emit_pc) {
+                        // (both the program counter itself and the address we end up emitting to need to exist)
+                        if !(0..=0x10000).contains(&emit_pc) || !(0..=0x10000).contains(&pc) {
                             return Err(Diagnostic::error()
                                 .with_message(format!(
                                     "program counter is out of range: {}",
